@@ -34,7 +34,7 @@ PROBES = [
     "probe.trunc_in_record_header", "probe.trunc_in_record_data", "probe.trunc_on_boundary", "probe.corrupt_caplen",
     "probe.bad_magic", "probe.read_past_end", "probe.read_all_n_gt_remaining", "probe.read_all_n_zero", "probe.zero_records",
     "probe.nanosecond_magic", "probe.written_reread", "probe.written_stdout", "probe.record_gt_65535", "probe.empty_payload",
-    "probe.drain_loop", "probe.long_file",
+    "probe.drain_loop", "probe.long_file", "probe.packet_written_twice",
 ]
 
 
@@ -164,6 +164,8 @@ def generate(rng, tier, idx):
     if rng.chance(45):
         write = {"target": rng.weighted([(55, "w"), (20, "x"), (25, "stdout")]), "ep": rng.below(len(eps))}
         write["reread"] = write["target"] != "stdout" and rng.chance(60)
+        # the same packet object written twice: again to the same output (1) or also to a second output (2)
+        write["dup"] = rng.weighted([(70, 0), (15, 1), (15, 2)])
     return {"eps": eps, "order": order, "write": write, "chunks": content.chunk_plan(rng), "rseed": rng.u64() >> 8}
 
 
@@ -230,6 +232,9 @@ def render(model):
         else:
             lines.append('let w = pcap_open("d/out.pcap", "%s");' % w["target"])
         lines.append('if is_error(w) { eprintln("#3000 E {}", w); } else { eprintln("#3000 V {}", w); }')
+        if w.get("dup") == 2:
+            lines.append('let w2 = pcap_open("d/out2.pcap", "w");')
+            lines.append('if is_error(w2) { eprintln("#3001 E {}", w2); } else { eprintln("#3001 V {}", w2); }')
     for i, ep in enumerate(model["eps"]):
         data = presented_bytes(ep)
         if ep["source"] == "stdin":
@@ -250,17 +255,21 @@ def render(model):
         lines.append("time();")
         wr = ""
         if w and w["ep"] == e:
-            wr = ' if !is_error(w) { eprintln("#%d W {}", pcap_write(w, %%s)); }' % k
+            wr = ' if !is_error(w) { eprintln("#%d W {}", pcap_write(w, VAR)); }' % k
+            if w.get("dup") == 1:
+                wr = wr + ' if !is_error(w) { eprintln("#%d W {}", pcap_write(w, VAR)); }' % k
+            elif w.get("dup") == 2:
+                wr = wr + ' if !is_error(w2) { eprintln("#%d W {}", pcap_write(w2, VAR)); }' % k
         if call[0] == "drain":
             body = ('let go = true; while go { let r = pcap_read_next(f%d); if is_error(r) { eprintln("#%d E {}", r); go = false; } else { if r == null { eprintln("#%d N"); go = false; } else { %s%s } } }'
-                    % (e, k, k, _pkt_line(k, "r"), (wr % "r") if wr else ""))
+                    % (e, k, k, _pkt_line(k, "r"), wr.replace("VAR", "r") if wr else ""))
         elif call[0] == "next":
             body = ('let r = pcap_read_next(f%d); if is_error(r) { eprintln("#%d E {}", r); } else { if r == null { eprintln("#%d N"); } else { %s%s } }'
-                    % (e, k, k, _pkt_line(k, "r"), (wr % "r") if wr else ""))
+                    % (e, k, k, _pkt_line(k, "r"), wr.replace("VAR", "r") if wr else ""))
         else:
             c = "pcap_read_all(f%d)" % e if call[0] == "all" else "pcap_read_all(f%d, %d)" % (e, call[1])
             body = ('let r = %s; if is_error(r) { eprintln("#%d E {}", r); } else { eprintln("#%d L {}", len(r)); let i = 0; while i < len(r) { let q = r[i]; %s%s i = i + 1; } }'
-                    % (c, k, k, _pkt_line(k, "q"), (wr % "q") if wr else ""))
+                    % (c, k, k, _pkt_line(k, "q"), wr.replace("VAR", "q") if wr else ""))
         lines.append('if is_error(f%d) { eprintln("#%d X"); } else { %s }' % (e, k, body))
     lines.append("time();")
     lines.append('eprintln("#9999 V DONE");')
@@ -391,6 +400,7 @@ def check(model, results):
                         inc("probe.chunk_in_record_header" if b - offs[j] < 16 else "probe.chunk_in_record_data")
 
     written = []     # tuples handed to pcap_write, in order
+    written2 = []    # ... to the second output (dup == 2)
     pos = [0] * len(eps)
     for k, e in enumerate(model["order"]):
         ep = eps[e]
@@ -421,9 +431,14 @@ def check(model, results):
                 for t, r in o:
                     if t == "P":
                         try:
-                            written.append(_parse_pkt(r))
+                            pp = _parse_pkt(r)
                         except (ValueError, IndexError):
-                            pass
+                            continue
+                        written.append(pp)
+                        if w.get("dup") == 1:
+                            written.append(pp)
+                        elif w.get("dup") == 2:
+                            written2.append(pp)
             continue
         rem = st["vis"][st["i"]:]
         at_end = len(rem) == 0
@@ -451,12 +466,19 @@ def check(model, results):
             if len(p[4]) == 0:
                 inc("probe.empty_payload")
         if w and w["ep"] == e:
-            for p, r in zip(pk, wr):
+            dup = w.get("dup", 0)
+            per = 2 if dup else 1
+            for j, p in enumerate(pk):
                 written.append(p)
-                if r != str(16 + len(p[4])):
-                    viols.append(_viol("write:count", "call %d: pcap_write of a %d-byte record returned %r" % (k, len(p[4]), r[:60])))
-            if len(wr) != len(pk):
-                viols.append(_viol("write:missing", "call %d: %d packets read but %d pcap_write results" % (k, len(pk), len(wr))))
+                if dup == 1:
+                    written.append(p)
+                elif dup == 2:
+                    written2.append(p)
+                for r in wr[j * per:(j + 1) * per]:
+                    if r != str(16 + len(p[4])):
+                        viols.append(_viol("write:count", "call %d: pcap_write of a %d-byte record returned %r" % (k, len(p[4]), r[:60])))
+            if len(wr) != len(pk) * per:
+                viols.append(_viol("write:missing", "call %d: %d packets read but %d pcap_write results (expected %d)" % (k, len(pk), len(wr), len(pk) * per)))
         srck = ep["source"]
         if call[0] == "drain":
             inc("probe.drain_loop")
@@ -567,6 +589,14 @@ def check(model, results):
                         len(got), trailing, len(written), next(("first difference at %d: %s vs %s" % (j, _pk_short(a), _pk_short(b)) for j, (a, b) in enumerate(zip(written, got)) if a != b), "prefix equal"))))
                 if any(len(p[4]) > 65535 for p in written):
                     inc("probe.record_gt_65535")
+            if w.get("dup"):
+                inc("probe.packet_written_twice")
+            if w.get("dup") == 2:
+                out2 = res.files.get("d/out2.pcap")
+                hdr2, recs2, trailing2 = pcapfmt.parse(out2 or b"")
+                if out2 is None or hdr2 != pcapfmt.default_header() or [tuple(r) for r in recs2] != written2 or trailing2:
+                    viols.append(_viol("write:second_output", "the second output file (each packet written to it after it was written to the first) has %s records (+%d trailing bytes), expected %d" % (
+                        "no" if out2 is None else len(recs2), trailing2, len(written2))))
         if w.get("reread") and len(results) > 1 and results[1] is not None:
             r2 = results[1]
             inc("probe.written_reread")
